@@ -36,6 +36,12 @@ Proof.
     cbn [tconv_v1 tconv_v2 tconv_v3_centroid tconv_v3_start tconv_v4 fst snd Z.to_pos]; ring.
 Qed.
 
+Lemma conv_t_is_spec c t : (conv_t c t == spec_conv_t c t)%Q.
+Proof.
+  destruct (conv_t_forms c t) as [A [B [C D]]]. unfold spec_conv_t.
+  destruct (c_fmt c); [apply A|apply B|apply C|apply D]; reflexivity.
+Qed.
+
 Lemma conv_vis c s :
   conv_of c s KVis = CVis (match c_fmt c with V1 | V2 => true | V3 => negb (c_upper c) | V4 => false end).
 Proof. unfold conv_of. destruct (c_fmt c); reflexivity. Qed.
@@ -53,6 +59,24 @@ Lemma conv_weights c s :
                                    | V2 | V3 => weights_on ["precision"%string] (atom_arg c (Select.wk s))
                                    | V4 => true end).
 Proof. unfold conv_of. destruct (c_fmt c); reflexivity. Qed.
+
+Lemma conv_is_spec c s k : conv_of c s k = spec_conv_of c s k.
+Proof.
+  destruct k; [apply conv_vis|apply conv_flags|apply conv_weights|reflexivity|reflexivity].
+Qed.
+
+Lemma timestamps_is_spec c s : cfg_ok c -> wf c s -> zlen (c_ts c) = stored_rows c ->
+  Forall2 Qeq (timestamps c s) (spec_timestamps c s).
+Proof.
+  intros Hc Hw Hl. unfold timestamps, spec_timestamps.
+  destruct (acquire_nf c s KTime Hc Hw) as [A1 [A2 _]].
+  pose proof (all2_fits_concat _ _ A1) as RT. fold (time_mask c s) in A2, RT.
+  pose proof (time_rows_le c s Hc) as LE.
+  rewrite (select_nth 0%Q (time_mask c s) (c_ts c) 0) by (unfold zlen in *; lia).
+  fold (nonzero (time_mask c s)). rewrite A2. unfold dumps. rewrite map_map.
+  induction (nonzero (Select.tk s)) as [|i r IH]; cbn [map]; constructor; [|exact IH].
+  rewrite Z.sub_0_r. apply conv_t_is_spec.
+Qed.
 
 (* ------------------------------------------------------------------ non-vacuity examples *)
 
